@@ -103,7 +103,7 @@ package ingress
 // Service and Endpoints <-> host (or tcp service) of the path, on every return
 // path including the failed read; on success also reader <-> backend
 //@ func (*converter).addBackendWithClass
-//@   props C01
+//@   props C01 C09
 //@   ensures svc-tracked:  calls(GetService) == 1 && calls(TrackRefName) >= 1
 //@   ensures back-tracked: result.1 == nil ==> calls(TrackNames) >= 1
 //@   at call GetService#1 assert read: $arg1 == source.Namespace && $arg2 == fullSvcName
@@ -123,7 +123,7 @@ package ingress
 // under drain-support, and then with weight 0; ready ones always do
 //@ count DrainFlag = (*annotations.ConfigValue).Bool
 //@ func (*converter).addEndpoints
-//@   props C03 C01
+//@   props C03 C01 C16
 //@   at call AcquireEndpoint#1 assert ready:    $arg1 == ready[$idx(1)-1].IP && $arg2 == ready[$idx(1)-1].Port
 //@   at call AcquireEndpoint#2 assert drain:    calls(DrainFlag) == 1 && last(DrainFlag) && $arg1 == notReady[$idx(2)-1].IP
 //@   at call AcquireEndpoint#3 assert draining: calls(DrainFlag) == 1 && last(DrainFlag)
@@ -136,7 +136,7 @@ package ingress
 // and each rule host is linked to the ingress before the dirty set is computed
 //@ count ReadKey = (*converter).readConfigKey
 //@ func (*converter).trackAddedIngress
-//@   props C01
+//@   props C01 C15
 //@   lemma covers: calls(ReadKey) == old(len(c.changed.IngressesAdd)) + old(len(c.changed.IngressesUpd))
 //@   loop 1 invariant seen: calls(ReadKey) == $idx(1) && 0 <= $idx(1) && $idx(1) <= len($rng(1)) && len($rng(1)) == old(len(c.changed.IngressesAdd)) + old(len(c.changed.IngressesUpd))
 //@   loop 2 invariant seen: calls(ReadKey) == $idx(1) && $idx(1) <= len($rng(1)) && len($rng(1)) == old(len(c.changed.IngressesAdd)) + old(len(c.changed.IngressesUpd))
@@ -162,4 +162,19 @@ package ingress
 //@   assume-pre RemoveAuthBackendByTarget sortIngress
 //@   loop 3 invariant added: 0 <= $idx(3) && forall a int :: 0 <= a && a < $idx(3) ==> in(ingFullName(c.changed.IngressesAdd[a]), ingMap) && ingMap[ingFullName(c.changed.IngressesAdd[a])] != nil
 //@   loop 4 entry added: forall a int :: 0 <= a && a < len(c.changed.IngressesAdd) ==> in(ingFullName(c.changed.IngressesAdd[a]), ingMap) && ingMap[ingFullName(c.changed.IngressesAdd[a])] != nil
+//@ end
+
+// C15 — a replaced default certificate (same file, new content) asks for a full sync
+//@ func (*converter).defaultCrtNeedFullSync
+//@   props C15
+//@   ensures either: result == (c.haproxy.Frontend().DefaultCrtFile != c.defaultCrt.Filename || c.haproxy.Frontend().DefaultCrtHash != c.defaultCrt.SHA1Hash)
+//@ end
+
+// C06 — server ids are assigned walking the endpoints in TargetRef order (the
+// sorted copy), so hash collisions are resolved the same way whatever order
+// the endpoints were listed in
+//@ func (*converter).syncBackendEndpointHashes
+//@   props C06
+//@   assume-pre Mapper).Get
+//@   loop 1 entry sorted-copy: $rng(1) == eps
 //@ end
